@@ -689,6 +689,9 @@ def _views_under_custom_names(ctx, case):
     ctx.count("views_compared_under_custom_column_names")
     if r:
         ctx.violation("custom-column-names", f"views / detached copies of a tree: {r}", case)
+    r = G.same_under_ambient(lambda: _all_views(G.renamed(tree, -1)), pick=case["hseed"])
+    if r:
+        ctx.violation("ambient-state", f"views / detached copies of a tree: {r}", case)
 
 
 def _big_tree_relations(ctx):
